@@ -45,7 +45,8 @@ func genC21(t *rapid.T) c21Case {
 	s := lib.StreamScript{ID: lib.CallID(0), InitOutcome: "ok"}
 	n := rapid.IntRange(1, 8).Draw(t, "nturns")
 	for i := 0; i < n; i++ {
-		tu := lib.TurnSpec{Act: "emit", Rows: rapid.IntRange(1, 3).Draw(t, "rows")}
+		// -1 stands for a zero-row batch (an empty partition, a fully filtered chunk)
+		tu := lib.TurnSpec{Act: "emit", Rows: []int{-1, 1, 2, 3, 1}[rapid.IntRange(0, 4).Draw(t, "rows")]}
 		if rapid.IntRange(0, 9).Draw(t, "fail") == 0 {
 			tu = lib.TurnSpec{Act: "error", Err: &lib.ErrSpec{Kind: "rpc", Type: "ValueError", Msg: "turn failed"}}
 		}
@@ -240,6 +241,12 @@ func runC21(c c21Case) (out lib.Outcome) {
 		method = "s_exch"
 	}
 	out.Label("kind:" + map[bool]string{true: "exchange", false: "producer"}[c.Exchange])
+	for _, tu := range c.Script.Turns {
+		if tu.Act == "emit" && tu.Rows < 0 {
+			out.Label("zero-row-batch:" + map[bool]string{true: "exchange", false: "producer"}[c.Exchange])
+			break
+		}
+	}
 	call := lib.CallSpec{Kind: "stream", Method: method, Stream: &c.Script, CancelAt: -1}
 	for _, v := range c.Inputs {
 		call.Inputs = append(call.Inputs, lib.InputSpec{Vals: []int64{v}})
@@ -447,11 +454,11 @@ func runC21(c c21Case) (out lib.Outcome) {
 var propC21 = lib.Prop[c21Case]{
 	ID:    "C21",
 	Level: "fault_enumeration",
-	Rule: "producer and exchange histories of 1-8 turns (rows, per-emit metadata, server-side turn errors) driven through vgirpc.HttpClient against a real HttpServer behind a generated RoundTripper fault script: per request one of pass, error before send, error after the server handled it, truncate at k, flip a byte, status 4xx/5xx/3xx/1xx, unknown coding, lying coding, cursor stripped, schema drift, trailing bytes, body inflated past the client's cap. " +
+	Rule: "producer and exchange histories of 1-8 turns (0-3 rows per batch, per-emit metadata, server-side turn errors) driven through vgirpc.HttpClient against a real HttpServer behind a generated RoundTripper fault script: per request one of pass, error before send, error after the server handled it, truncate at k, flip a byte, status 4xx/5xx/3xx/1xx, unknown coding, lying coding, cursor stripped, schema drift, trailing bytes, body inflated past the client's cap. " +
 		"Oracle: un-faulted responses give exactly the reference batches (my own client against an identical server) with tokens removed and user metadata kept; server exceptions surface as *RpcError of the server's type; must-fail faults are errors; after any failed exchange turn every later turn errors without a request; no cursor value occurs in two /exchange requests. Non-trivial: at least one fault was exercised.",
 	Gen:          genC21,
 	Run:          runC21,
-	Essential:    []string{"kind:exchange", "kind:producer", "fault-at-turn>=2", "server-error", "fault:strip_cursor", "fault:err_after", "fault:oversize"},
+	Essential:    []string{"kind:exchange", "kind:producer", "zero-row-batch:producer", "zero-row-batch:exchange", "fault-at-turn>=2", "server-error", "fault:strip_cursor", "fault:err_after", "fault:oversize"},
 	EssentialMin: 300,
 	Assumptions:  []string{"a corrupted-but-parseable body (truncate/flip) may legitimately succeed: the client has no checksum", "the no-replay clause is asserted for exchange streams, as the statement words it"},
 }
